@@ -46,7 +46,7 @@ func (x *c18Exec) call(fr *c18Frame, call *ast.CallExpr) c18Val {
 		case c18KNodes:
 			return c18Val{k: c18KInt, i: x.s.n, org: c18ONodeLen}
 		case c18KValues:
-			return c18Val{k: c18KInt, i: 1}
+			return c18Val{k: c18KInt, i: x.s.ll}
 		case c18KTable:
 			return c18Val{k: c18KInt, org: c18OTableLen}
 		case c18KStr:
@@ -60,6 +60,8 @@ func (x *c18Exec) call(fr *c18Frame, call *ast.CallExpr) c18Val {
 				}
 				return c18Val{k: c18KInt, i: n, org: c18OStrLen}
 			}
+		case c18KSlice, c18KNil:
+			return c18Val{k: c18KInt, i: int64(len(v.elems))}
 		case c18KTags:
 			x.readViolation(call, "the number of tags takes part in the classification")
 		}
@@ -140,6 +142,9 @@ func (x *c18Exec) search(fr *c18Frame, call *ast.CallExpr, fn *types.Func) c18Va
 	obs.list, obs.needle = x.src(call.Args[0]), x.src(call.Args[1])
 	list := x.eval(fr, call.Args[0])
 	needle := x.eval(fr, call.Args[1])
+	if list.k == c18KSlice || list.k == c18KNil {
+		return x.searchConcrete(list, needle, call) // a literal list, not the entry's (L2 reports it for ways)
+	}
 	obs.listOK = list.k == c18KValues
 	obs.needleOK = needle.k == c18KStr && needle.org == c18OEntryTag
 	if !obs.listOK {
@@ -149,9 +154,7 @@ func (x *c18Exec) search(fr *c18Frame, call *ast.CallExpr, fn *types.Func) c18Va
 		return c18Unk("`%s` does not search for the tag value found under the entry's key", x.src(call))
 	}
 	r := c18Val{k: c18KInt, org: c18OSearchIdx}
-	if x.s.p {
-		r.i = 1
-	}
+	r.i = x.s.rk
 	return r
 }
 
@@ -303,6 +306,18 @@ func c18IsLookupVar(v *types.Var) bool {
 	return false
 }
 
+// c18IsLiteralVar: a package-level slice, array or struct whose initialiser is a composite literal (a literal table).
+func c18IsLiteralVar(pk *packages.Package, v *types.Var) bool {
+	switch v.Type().Underlying().(type) {
+	case *types.Slice, *types.Array, *types.Struct:
+		if init := c18VarInit(pk, v); init != nil {
+			_, ok := ast.Unparen(init).(*ast.CompositeLit)
+			return ok
+		}
+	}
+	return false
+}
+
 // constStrings collects every constant string mentioned in the evaluated functions (scenario values).
 func (x *c18Exec) constStrings() []string {
 	m := map[string]bool{}
@@ -315,7 +330,7 @@ func (x *c18Exec) constStrings() []string {
 			}
 			// the constants of a package-level lookup table the function consults
 			if id, ok := n.(*ast.Ident); ok {
-				if pv, ok := x.info.Uses[id].(*types.Var); ok && pv.Parent() == x.pk.Types.Scope() && c18IsLookupVar(pv) {
+				if pv, ok := x.info.Uses[id].(*types.Var); ok && pv.Parent() == x.pk.Types.Scope() && (c18IsLookupVar(pv) || c18IsLiteralVar(x.pk, pv)) {
 					if init := c18VarInit(x.pk, pv); init != nil {
 						ast.Inspect(init, func(k ast.Node) bool {
 							if e, ok := k.(ast.Expr); ok {
